@@ -448,11 +448,19 @@ func main() {
 	res := hx.NewResult("C12", "histories of 3..8 (search: ..14) syncs + updates on the real Instance (shards 0/1/3/8, inline reload through a fake master socket or reload queue), about a third of the updates with one or two armed faults out of {tcp maps, 4 frontend map files, backend maps, tcp crt-lists, main cfg, each shard file, reload request, reload result, reload connection reset by the master (inline and through the queue), reload answered by EOF / garbage by a master that does reload}, each followed by the reconciler's retry; non-trivial = at least one armed fault made an update fail; distinct by canonical JSON")
 	base, _ := filepath.Abs(filepath.Join(o.Out, "scratch"))
 	var inputs []History
+	var loops []LoopInput
 	if o.Replay != "" {
-		var h History
-		hx.ReadReplay(o.Replay, &h)
-		inputs = append(inputs, h)
+		var li LoopInput
+		hx.ReadReplay(o.Replay, &li)
+		if len(li.Script) > 0 {
+			loops = append(loops, li)
+		} else {
+			var h History
+			hx.ReadReplay(o.Replay, &h)
+			inputs = append(inputs, h)
+		}
 	} else {
+		loops = append(loops, loopCorpus(rng)...)
 		inputs = append(inputs, corpus()...)
 		n := o.Count(90, 3000)
 		if o.Search {
@@ -498,6 +506,33 @@ func main() {
 		}
 		if !o.Search {
 			cw.add(h, r)
+		}
+	}
+	// retry-loop level: real watchers + Reconcile + ReconcileIngress
+	if o.Replay == "" {
+		nl := o.Count(24, 600)
+		if o.Search {
+			nl = o.Count(150, 600)
+		}
+		for i := 0; i < nl; i++ {
+			loops = append(loops, genLoop(rng, o.Search))
+		}
+	}
+	for _, in := range loops {
+		r := runLoop(filepath.Join(base, "loop"), in)
+		b, _ := json.Marshal(in)
+		res.Seen("loop "+string(b), r.Failed > 0)
+		res.Count("loop_histories")
+		res.Count(fmt.Sprintf("loop_failed_attempts=%d", r.Failed))
+		res.Distribution["loop_attempts"] += r.Attempts
+		res.Distribution["loop_requeues"] += r.Requeues
+		res.OracleChecks += r.Attempts - r.Failed + 1
+		if r.Key != "" {
+			res.Count("oracle_fail_" + r.Key)
+			res.Fail(hx.Failure{Key: "C12/" + r.Key, What: r.What, Input: in})
+		}
+		if !o.Search {
+			cw.addLoop(in, r)
 		}
 	}
 	cw.flush()
